@@ -258,8 +258,12 @@ fn generate_family(id: &str, run_seed: u64, _thorough: bool) -> Plan {
             } else if pick < 96 {
                 // creates racing deletes of the same names (wait-for cycles that need no full mailbox)
                 f_names(run_seed, 3, false)
-            } else {
+            } else if pick < 97 {
                 f_dupcreate(run_seed)
+            } else {
+                // many Pulls parked on one real HTTP/2 connection to the real transport server, then
+                // other requests on the same connection
+                f_conn(run_seed)
             }
         }
         "C08" => {
@@ -379,7 +383,14 @@ fn generate_family(id: &str, run_seed: u64, _thorough: bool) -> Plan {
                 f_consumers(run_seed, true).with_tag("cancel")
             }
         }
-        "C17" => f_hostile(run_seed),
+        "C17" => {
+            if pick >= 96 {
+                // malformed requests on a real HTTP/2 connection on which many Pulls are parked
+                f_conn(run_seed)
+            } else {
+                f_hostile(run_seed)
+            }
+        }
         "C15" => {
             if pick >= 90 {
                 // a Pull that is (re)issued while the subscription's mailbox is full: it still returns
